@@ -97,6 +97,25 @@ def stdOp (toks : List String) : Option String :=
         pure (hv, K, tv))
       pure ("ok " ++ showBytes (encReadFullStatus gen ds))
     | _ => none
+  | ["stdenc", "prreadfullstatusany", pv] => do
+    -- descs entries: {header={…}, pid=…, tid={…}} (fixed-size TransportID) or {header={…}, name=x…, pad=i…} (iSCSI name)
+    match ← PVText.parsePV pv with
+    | .dict d =>
+      let gen := match PDict.get? d "gen" with | some (.int n) => n | _ => 0
+      let ds ← (pvList (.dict d) "descs").mapM (fun e => do
+        let ed ← match e with | .dict ed => some ed | _ => none
+        let hv := match PDict.get? ed "header" with | some h => valsOfPV h | none => fun _ => 0
+        match PDict.get? ed "name" with
+        | some _ =>
+          let pad := match PDict.get? ed "pad" with | some (.int n) => n | _ => 0
+          pure (hv, Tid.iscsi (pvBytes e "name") pad)
+        | none =>
+          let pid := match PDict.get? ed "pid" with | some (.int n) => n | _ => 0
+          let K ← tidKinds.find? (·.pid == pid)
+          let tv := match PDict.get? ed "tid" with | some t => valsOfPV t | none => fun _ => 0
+          pure (hv, Tid.fixed K tv))
+      pure ("ok " ++ showBytes (encReadFullStatusAny gen ds))
+    | _ => none
   | ["stdenc", "tidiscsi", pv] => do
     -- {name=x…, pad=i…}
     match ← PVText.parsePV pv with
